@@ -240,6 +240,10 @@ add("gc6", "%start S\n%left 'a'\n%%\nS: 'b' B | 'b' A | ;\nA: 'b' 'b' S | 'b' | 
 add("gc7", "%start S\n%%\nS: 'a' A | 'a';\nA: 'a' 'a' S A | 'a' S | 'a' 'a';\n", tags=["gc"])
 add("gc8", "%start S\n%%\nS: 'c' A | 'd' 'a' B | 'c' 'a' B 'c' | ;\nA: A C C 'b' | 'd' A | 'b' 'c' D 'd' | 'a' 'd';\nB: D 'a' 'd' 'c' | D | S | 'b' 'b';\nC: 'a' 'c' A;\nD: A C | C S | ;\n", tags=["gc"])
 
+# a state with three distinct (rule, length) reductions: core_reduces must list all three
+add("core-reduces3", "%start S\n%%\nS: A 'x' | B 'y' | C 'z' | D D 'w';\nA: 'a';\nB: 'a';\nC: 'a';\nD: ;\n", tags=["lr1"], inputs=["a x", "a y", "a z", "w", "a"])
+add("core-reduces4", "%start S\n%%\nS: 'q' A 'x' | 'q' B 'y' | 'q' C 'z' | 'q' E 'v';\nA: 'a' 'b';\nB: 'a' 'b';\nC: 'a' 'b';\nE: 'a' 'b';\n", tags=["lr1"], inputs=["q a b x", "q a b v", "q a b"])
+
 
 def select(tags=None, exclude=()):
     out = []
